@@ -7,7 +7,7 @@ use std::task::Poll;
 use std::time::Duration;
 
 use nexosim::model::{BuildContext, Context, InitializedModel, Model, ProtoModel};
-use nexosim::ports::{EventBuffer, EventSlot, EventSource, Output, QuerySource, Requestor};
+use nexosim::ports::{EventBuffer, EventSlot, EventSource, Output, QuerySource, Requestor, UniRequestor};
 use nexosim::simulation::{ActionKey, Address, Mailbox, SchedulingError, SimInit};
 use nexosim::time::{Clock, MonotonicTime, SyncStatus};
 
@@ -166,7 +166,7 @@ pub struct Node {
     ctx: Arc<ExecCtx>,
     case: Arc<Case>,
     outs: Vec<Output<Msg>>,
-    reqs: Vec<Requestor<Msg, Reply>>,
+    reqs: Vec<ReqPort>,
     keys: Keys,
     invocations: u32,
     /// Plain (non-atomic) field written by every computation of this model:
@@ -292,12 +292,10 @@ impl Node {
                 let m = Msg::new(&ctx, id, kind, msg.ttl - 1, child_salt(msg.salt, self.idx, op_idx));
                 ctx.log(Ev::SendBegin { actor, port: 1000 + port as u16, msg: id, kind, query: true, salt: m.salt, ttl: m.ttl });
                 let take = self.spec().reply_take.map(|t| t as usize).unwrap_or(usize::MAX);
-                let replies: Vec<(u16, u64, u32, u32)> = self.reqs[port as usize]
-                    .send(m)
-                    .await
-                    .take(take)
-                    .map(|r| (r.replier, r.msg, r.via, r.rvia))
-                    .collect();
+                let replies: Vec<(u16, u64, u32, u32)> = match &mut self.reqs[port as usize] {
+                    ReqPort::Multi(req) => req.send(m).await.take(take).map(|r| (r.replier, r.msg, r.via, r.rvia)).collect(),
+                    ReqPort::Uni(req) => req.send(m).await.into_iter().take(take).map(|r| (r.replier, r.msg, r.via, r.rvia)).collect(),
+                };
                 ctx.log(Ev::SendEnd { actor, port: 1000 + port as u16, msg: id, replies });
             }
             Op::Sched { kind, when, mode } => {
@@ -451,7 +449,10 @@ impl Node {
                         r.rvia = cid;
                         r
                     };
-                    with_q!(self.case.nodes[target as usize].sync_inputs, |__f| self.reqs[rp].map_connect(move |m: &Msg| m.with_via(cid), rmap, __f, addr));
+                    // (a port with dynamic connections is never built as a `UniRequestor`)
+                    if let ReqPort::Multi(req) = &mut self.reqs[rp] {
+                        with_q!(self.case.nodes[target as usize].sync_inputs, |__f| req.map_connect(move |m: &Msg| m.with_via(cid), rmap, __f, addr));
+                    }
                     ctx.log(Ev::Note(format!("connect node={} port={} target={} cid={}", self.idx, port, target, cid)));
                 }
             }
@@ -651,6 +652,41 @@ fn connect_req(req: &mut Requestor<Msg, Reply>, e: &Edge, addrs: &[Address<Node>
     })
 }
 
+/// A requestor port of a model: `Requestor`, or `UniRequestor` for some of the ports with exactly
+/// one static connection (see `uni_port`); both must behave alike.
+pub enum ReqPort {
+    Multi(Requestor<Msg, Reply>),
+    Uni(UniRequestor<Msg, Reply>),
+}
+
+/// Whether requestor port `p` of node `n` is built as a `UniRequestor`: one static connection
+/// (a third of those, chosen by the connection identifier), not cloned by any other port and never
+/// the target of a dynamic `Connect`.
+pub fn uni_port(case: &Case, n: usize, p: usize) -> bool {
+    let port = &case.nodes[n].reqs[p];
+    if port.len() != 1 || port[0].cid == 0 || port[0].cid % 3 != 0 || !matches!(port[0].target, Target::Node(_)) {
+        return false;
+    }
+    let cloned = case.nodes.iter().any(|o| o.reqs.iter().any(|q| q.first().map(|e| e.cid == 0 && e.target == Target::Node(n as u16) && e.filter == Some((255, p as u8))).unwrap_or(false)));
+    let connected = case.nodes[n].on.iter().flatten().chain(case.nodes[n].init.iter()).any(|o| matches!(o, Op::Connect { port, .. } if *port as usize == 100 + p));
+    !cloned && !connected
+}
+
+fn uni_req(e: &Edge, addrs: &[Address<Node>]) -> UniRequestor<Msg, Reply> {
+    let cid = e.cid;
+    let Target::Node(t) = e.target else { unreachable!() };
+    let addr = addrs[t as usize].clone();
+    let rmap = move |mut r: Reply| {
+        r.rvia = cid;
+        r
+    };
+    match (e.filter, e.map) {
+        (Some((m, r)), _) => UniRequestor::with_filter_map(move |x: &Msg| (x.salt % (m.max(1) as u32) == r as u32).then(|| x.with_via(cid)), rmap, Node::on_query, addr),
+        (None, true) => UniRequestor::with_map(move |x: &Msg| x.with_via(cid), rmap, Node::on_query, addr),
+        (None, false) => UniRequestor::new(Node::on_query, addr),
+    }
+}
+
 /// Builds the bench described by `case`. Mailboxes are created in node index
 /// order, so the n-th mailbox has simulator identifier `1 + (n ^ chan_mask)`.
 pub fn build(case: &Arc<Case>, ctx: &Arc<ExecCtx>) -> Bench {
@@ -686,12 +722,16 @@ pub fn build(case: &Arc<Case>, ctx: &Arc<ExecCtx>) -> Bench {
             outs.push(out);
         }
         let mut reqs = Vec::new();
-        for port in &spec.reqs {
+        for (p, port) in spec.reqs.iter().enumerate() {
+            if uni_port(case, i, p) {
+                reqs.push(ReqPort::Uni(uni_req(&port[0], &addrs)));
+                continue;
+            }
             let mut req = Requestor::new();
             for e in port {
                 connect_req(&mut req, e, &addrs, case);
             }
-            reqs.push(req);
+            reqs.push(ReqPort::Multi(req));
         }
         let needs_addrs = spec.on.iter().flatten().chain(spec.init.iter()).any(|o| matches!(o, Op::Connect { .. }));
         nodes.push(Some(Node {
@@ -729,8 +769,9 @@ pub fn build(case: &Arc<Case>, ctx: &Arc<ExecCtx>) -> Bench {
             if let Some(e) = case.nodes[i].reqs[p].first() {
                 if e.cid == 0 {
                     if let (Target::Node(j), Some((255, q))) = (e.target, e.filter) {
-                        let c = nodes[j as usize].as_ref().unwrap().reqs[q as usize].clone();
-                        nodes[i].as_mut().unwrap().reqs[p] = c;
+                        let ReqPort::Multi(c) = &nodes[j as usize].as_ref().unwrap().reqs[q as usize] else { unreachable!("a cloned port is never a UniRequestor") };
+                        let c = c.clone();
+                        nodes[i].as_mut().unwrap().reqs[p] = ReqPort::Multi(c);
                     }
                 }
             }
